@@ -6,6 +6,7 @@ import (
 	"fmt"
 	"io"
 	"reflect"
+	"strings"
 
 	"github.com/Tnze/go-mc/nbt"
 
@@ -183,6 +184,93 @@ func firstFeature(diff string) string {
 	return "other"
 }
 
+// checkAwkward: values the documented mapping does not describe - lists whose interface-typed elements have
+// different kinds, strings / keys / root names at and beyond the 16-bit length field. The mapping oracle has
+// nothing to say about them, but the statement still does: whatever the encoder ACCEPTS must come out as one
+// well-formed document (here under the specification's unsigned reading of string lengths). An error is fine.
+func checkAwkward(c *vm.Ctx, r *vm.Rand) {
+	long := func() string {
+		n := []int{32767, 32768, 40000, 65535, 65536, 65537, 70000, 131072 + 5}[r.Intn(8)]
+		return strings.Repeat("a", n)
+	}
+	het := func() []any {
+		pool := []any{int8(1), int16(2), int32(3), int64(4), float32(1.5), float64(2.5), "s", []byte{1}, []int32{1}, []int64{1}, map[string]any{"k": int32(1)}, []any{int32(1)}, struct{ A int32 }{7}}
+		n := r.Range(2, 5)
+		out := make([]any, n)
+		for i := range out {
+			out[i] = pool[r.Intn(len(pool))]
+		}
+		switch r.Intn(6) {
+		case 0:
+			out[r.Intn(n)] = nil // a nil element
+		case 1: // one kind only, of those that have a typed-array form
+			k := []any{int8(-3), uint8(200), true, int32(7), int64(9), uint32(5)}[r.Intn(6)]
+			for i := range out {
+				out[i] = k
+			}
+		}
+		return out
+	}
+	var v any
+	kind := ""
+	name := ""
+	switch r.Intn(8) {
+	case 0:
+		v, kind = het(), "heterogeneous-list"
+	case 1:
+		v, kind = map[string]any{"l": het()}, "heterogeneous-list-in-map"
+	case 2:
+		v, kind = struct {
+			L []any `nbt:"l"`
+		}{het()}, "heterogeneous-list-in-struct"
+	case 3:
+		v, kind = [][]any{het(), het()}, "heterogeneous-list-nested"
+	case 4:
+		v, kind = long(), "long-string"
+	case 5:
+		v, kind = map[string]any{long(): int32(1), "b": int32(2)}, "long-key"
+	case 6:
+		v, kind = []string{"a", long(), "c"}, "long-string-in-list"
+	default:
+		v, name, kind = int32(5), long(), "long-root-name"
+	}
+	network := name == "" && r.Bool()
+	desc := fmt.Sprintf("%T", v)
+	if s, ok := v.(string); ok {
+		desc = fmt.Sprintf("string of %d bytes", len(s))
+	} else if kind[:4] != "long" {
+		desc = fmt.Sprintf("%#v", v)
+	}
+	wit := func() any {
+		return map[string]any{"kind": kind, "go_value": desc, "network": network, "root_name_len": len(name)}
+	}
+	var buf bytes.Buffer
+	var err error
+	if c.Guard("enc/awkward", wit, func() {
+		enc := nbt.NewEncoder(&buf)
+		enc.NetworkFormat(network)
+		err = enc.Encode(v, name)
+	}) {
+		return
+	}
+	c.Eval(vm.HashStr("awkward", kind, desc, fmt.Sprint(network, len(name))), true)
+	if err != nil {
+		c.Cover("awkward." + kind + ".refused")
+		return
+	}
+	refnbt.UnsignedStringLengths = true
+	_, _, used, perr := refnbt.Parse(buf.Bytes(), network)
+	refnbt.UnsignedStringLengths = false
+	if perr != nil || used != buf.Len() {
+		w := wit().(map[string]any)
+		w["output_len"] = buf.Len()
+		w["output_head_hex"] = vm.Hex(buf.Bytes()[:min(buf.Len(), 96)])
+		c.Violation("enc/accepted-but-malformed/"+kind, fmt.Sprintf("the encoder reported success but its output is not one well-formed document: %v (used %d of %d bytes)", perr, used, buf.Len()), w)
+		return
+	}
+	c.Cover("awkward." + kind + ".well-formed")
+}
+
 func checkEncode(c *vm.Ctx, g *gotypes.Gen) {
 	r := g.R
 	g.Features = map[string]bool{}
@@ -330,6 +418,10 @@ func run(c *vm.Ctx) {
 	nEnc := c.Scale(30000, 600000)
 	for i := 0; i < nEnc; i++ {
 		checkEncode(c, tg)
+	}
+	ar := c.Rand("awkward")
+	for i := 0; i < c.Scale(2000, 20000); i++ {
+		checkAwkward(c, ar)
 	}
 }
 
